@@ -37,8 +37,10 @@ CAPACITY = {
     "integer": (-(2 ** 31), 2 ** 31 - 1),
     "bigint": (-(2 ** 63), 2 ** 63 - 1),
 }
-# ANSI 'int' is implementation-defined and Oracle's 'int' is number(38): their capacity is not decided here
-UNDECIDED_CAPACITY = {("ANSI", "int"), ("PL", "int")}
+# Oracle's 'int' is number(38): its capacity is not a power of two.  ANSI leaves the size of INTEGER to the implementation,
+# but every implementation the other dialects of the module stand for stores 32 bits in it, and the module's own
+# MAX_INTEGER says the same: ANSI int is decided as 32 bits, ANSI bigint (SQL:2003) as 64 bits.
+UNDECIDED_CAPACITY = {("PL", "int")}
 BOUNDARIES = sorted({sign * (2 ** power) + delta for power in (7, 8, 15, 16, 31, 32, 63) for sign in (1, -1) for delta in (-1, 0, 1)}
                     | {sign * (10 ** power) + delta for power in (10, 19, 20) for sign in (1, -1) for delta in (-1, 0, 1)} | {0, 1, -1})
 
@@ -58,13 +60,13 @@ def _dialect(interp, model, name):
     return _DIALECT_CACHE[key]
 
 
-def _field(model, name, allowed_empty, ansi_type):
+def _field(model, name, allowed_empty, ansi_type, empty_value=None):
     @stub
     def sql_ansi_type(interp, args, kwargs):
         return ansi_type
 
     return Obj(model.cls("cutplace.fields.AbstractFieldFormat"), {
-        "_field_name": name, "_is_allowed_to_be_empty": allowed_empty, "_empty_value": None, "sql_ansi_type": sql_ansi_type}, label=name)
+        "_field_name": name, "_is_allowed_to_be_empty": allowed_empty, "_empty_value": empty_value, "sql_ansi_type": sql_ansi_type}, label=name)
 
 
 def own_keywords(model, dialect_name):
@@ -167,14 +169,17 @@ def rule_columns(ctx):
         # a plain name, a word reserved in this dialect (preferably only there), a word reserved elsewhere only
         names = ["customer_id", only_here[0] if only_here else "select", (only_ansi[0] if only_ansi else "Order")]
         interp = Interp(model, ch)
-        fields = [_field(model, names[index], flags[index], ("varchar", 10 + index)) for index in range(3)]
+        # empty values: the built-in defaults (None / "") or a value of the field's native type (documented parameter
+        # empty_value of the field format constructors, e.g. 0 for an Integer field)
+        empty_values = ch.choose("empty values", [(None, "", None), (0, None, 1.5)])
+        fields = [_field(model, names[index], flags[index], ("varchar", 10 + index), empty_values[index]) for index in range(3)]
         cid = Obj(model.cls("cutplace.interface.Cid"), {"_field_formats": fields, "_field_names": names}, label="cid")
         dialect = _dialect(interp, model, dialect_name)
         factory = interp.instantiate(ClassRef(model.cls(FACTORY)), [cid, "t", dialect], {})
         try:
             statement = interp.call_function(model.func(FACTORY + ".create_table_statement"), [factory], {}, None)
         except AbsRaise as raised:
-            return ("%s %s" % (dialect_name, flags), "raise " + exc_name(raised.value), "conforms")
+            return ("%s %s empty values %r" % (dialect_name, flags, empty_values), "raise " + exc_name(raised.value), "conforms")
         if not isinstance(statement, str):
             return ("%s %s" % (dialect_name, flags), "statement is not a concrete text: %r" % (statement,), "conforms")
         body = statement[statement.index("(") + 1: statement.rindex(")")]
@@ -184,6 +189,8 @@ def rule_columns(ctx):
             problems.append("%d column definitions for 3 fields" % len(lines))
         keywords = interp.getattr(dialect, "keywords")
         for index, line in enumerate(lines[:3]):
+            if " default " in line:
+                line = line[:line.index(" default ")]
             name = names[index]
             is_keyword = name.lower() in own
             expected_name = '"%s"' % name if is_keyword else name
@@ -194,9 +201,9 @@ def rule_columns(ctx):
                 problems.append("column %d does not carry %s(%d): %r" % (index, type_word, 10 + index, line))
             if line.endswith(" not null") == flags[index]:
                 problems.append("column %d (%s, allowed to be empty: %s) is rendered %r" % (index, name, flags[index], line))
-        return ("%s empty-allowed=%s" % (dialect_name, flags), "; ".join(problems) if problems else "conforms", "conforms")
+        return ("%s empty-allowed=%s empty values %r" % (dialect_name, flags, empty_values), "; ".join(problems) if problems else "conforms", "conforms")
 
-    decide(ctx, "O19.1", "create_table_statement(3 fields)", FACTORY + ".create_table_statement", cell, min_cells=32)
+    decide(ctx, "O19.1", "create_table_statement(3 fields)", FACTORY + ".create_table_statement", cell, min_cells=64)
 
 
 def rule_integer_types(ctx):
